@@ -21,7 +21,7 @@ RULE = ("alphabet: send of 1 byte / 12 bytes / two messages (1+6 bytes) / a null
         "newest pending send, timer (batch time limit tick, request timeout, retry timer), produce reply ok / error 7, "
         "connection accept, stop(); every enabled event in every state up to the depth bound (BFS, states = distinct "
         "fingerprints of the producer + monitor).  Configurations: batch_every_n {0,2,3} x batch_every_b {0,10} x "
-        "batch_every_t {0,5} and the unbatched producer.  Oracle (reference model recomputed from scratch each step: "
+        "batch_every_t {0,5}, the unbatched producer, and two acks=0 configurations (a batch resolves inside the dispatch).  Oracle (reference model recomputed from scratch each step: "
         "queue of accepted-undispatched-uncancelled sends, in-flight = client call or retry timer pending): a dispatch "
         "happens only when a threshold is met or the time limit ticks, takes the whole queue, and must happen in the "
         "step in which nothing is in flight and a threshold is met (including the step the previous batch resolves) "
@@ -38,6 +38,9 @@ def configs():
             continue
         out.append({"batch_every_n": n, "batch_every_b": b, "batch_every_t": t})
     out.append({"unbatched": True})
+    # no acknowledgements: a batch can resolve synchronously inside the dispatch
+    out.append({"batch_every_n": 1, "batch_every_b": 0, "batch_every_t": 0, "acks": 0})
+    out.append({"batch_every_n": 2, "batch_every_b": 0, "batch_every_t": 5, "acks": 0})
     return out
 
 
